@@ -6,6 +6,7 @@ import numpy as np
 from vmon import boot, contracts, events
 from vmon.gen import atomsgen, patterns, planted, replcase
 from vmon.oracle import atomsmodel as AM
+from vmon.oracle import geometry as G
 from vmon.oracle import lmpread
 
 from vmon.oracle.util import clone
@@ -38,7 +39,7 @@ def cases(tier, seed):
     for j in range(n):
         out.append({"kind": "synthetic", "s": int(rng.integers(1 << 30)), "cell": planted.CELL_CLASSES[j % 9], "pattern": PATTERNS[(j // 2) % len(PATTERNS)],
                     "repl": REPLS[(j // 3) % len(REPLS)], "chain": (j // 5) % 3 == 0, "pair": ["both", "neither", "both", "cif_like"][(j // 7) % 4],
-                    "replace_all": (j // 11) % 5 == 0})
+                    "replace_all": (j // 11) % 5 == 0, "many": j % 12 == 5})
     out.append({"kind": "example3", "s": 0})
     return out
 
@@ -98,6 +99,41 @@ def predict(mS, S_ids, mR_for, found, sel, shared, replace_all, pat_n):
     return AM.delete(model, removed), removed
 
 
+def _order_by_position(out, S_ids_set, sel, per_match, obs, pat, rep, rids_base, cell):
+    """the selected matches in the order in which their blocks of inserted atoms appear in the result, told by where the blocks
+    sit: block b belongs to the match whose rotation puts the replacement's new atoms there (optimal assignment) -> list | None"""
+    try:
+        if not per_match or not sel or obs.get("quats") is None:
+            return None
+        oc = [float(c) for c in out.charges]
+        ins = [i for i, c in enumerate(oc) if c not in S_ids_set]
+        if len(ins) != per_match * len(sel):
+            return None
+        ppos = np.asarray(pat["positions"], float)
+        rpos = np.asarray(rep["positions"], float).reshape(-1, 3)
+        opos = np.asarray(out.positions, float)
+        cost = np.zeros((len(sel), len(sel)))
+        for b in range(len(sel)):
+            blk = ins[b * per_match:(b + 1) * per_match]
+            for a, k in enumerate(sel):
+                q, x0 = obs["quats"][k], np.asarray(obs["found_positions"][k], float)[0]
+                tot = 0.0
+                for i in blk:
+                    ri = rids_base.index(oc[i]) if oc[i] in rids_base else None
+                    if ri is None:
+                        return None
+                    tot += float(G.equal_mod_lattice(cell, (q.apply(rpos[ri] - ppos[0]) + x0)[None, :], opos[i][None, :])[0])
+                cost[b, a] = tot
+        from scipy.optimize import linear_sum_assignment
+        rows, cols = linear_sum_assignment(cost)
+        order = [None] * len(sel)
+        for b, a in zip(rows, cols):
+            order[b] = sel[a]
+        return order
+    except Exception:
+        return None
+
+
 def out_ids(out, S_ids_set, sel, per_match, step):
     """ids for the atoms of the real result: originals by charge, inserted atoms by (step, k-th replaced match, charge) using
     the observed block structure (inserted atoms are appended match by match, deletions only remove original atoms)"""
@@ -146,7 +182,14 @@ def one_step(ctx, st, S, pat, rep, R, step, seed, atol, replace_all, case_w, pai
     # in which order the selected matches were served is nobody's business: the blocks of inserted atoms are tried against the
     # selected matches in every order (at most 24) and the first order under which everything agrees is taken
     import itertools
-    orders = [list(sel)] + ([list(p) for p in itertools.permutations(sel) if list(p) != list(sel)] if 2 <= len(sel) <= 4 else [])
+    # each block of inserted atoms belongs to the match at whose place it sits; only where nothing is inserted (or the places
+    # cannot be told) are the blocks tried against the selected matches in every order
+    geo = _order_by_position(out, set(S_ids), sel, n_new, obs, pat, rep, rids_base, np.array(S.cell, float))
+    if geo is not None:
+        orders = [geo]
+        st.count("blocks_of_inserted_atoms_assigned_to_matches_by_position")
+    else:
+        orders = [list(sel)] + ([list(p) for p in itertools.permutations(sel) if list(p) != list(sel)] if 2 <= len(sel) <= 4 else [])
     first = None
     for order in orders:
         if order != list(sel):
@@ -217,6 +260,8 @@ def run_case(case, ctx):
     atol = 0.05
     pat = patterns.make(rng, case["pattern"])
     k = int(rng.integers(1, 4))
+    if case.get("many"):
+        k = 12      # a dozen occurrences of which a part is replaced: tables indexed by match number reach two digits
     built = planted.build(rng, pat, case["cell"], atol, n_copies=k, crossings=[int(x) for x in rng.integers(0, 4, k)],
                           poses=[planted.POSES[int(x)] for x in rng.integers(0, len(planted.POSES), k)], n_bystanders=int(rng.integers(2, 8)) if case["s"] % 3 else int(rng.integers(1, 4)),
                           n_distractors=0, min_sep=1.35)
@@ -297,7 +342,9 @@ def run_case(case, ctx):
             if targets:
                 st.count("doubled_structure_terms_that_the_pattern_supersedes")
     w = {"case": {k2: case[k2] for k2 in ("cell", "pattern", "repl", "chain", "pair", "replace_all")}, "planted": built["planted"]}
-    out, nrep = one_step(ctx, st, S, pat, rep, R, 1, case["s"], atol, case["replace_all"], w, pair_class, fraction=[1.0, 1.0, 1.0, 0.67, 0.5][(case["s"] // 3) % 5])
+    out, nrep = one_step(ctx, st, S, pat, rep, R, 1, case["s"], atol, case["replace_all"], w, pair_class, fraction=[1.0, 1.0, 1.0, 0.67, 0.5][(case["s"] // 3) % 5] if not case.get("many") else [0.25, 0.34, 0.5][case["s"] % 3])
+    if case.get("many") and nrep >= 3:
+        st.count("partial_replacements_of_three_or_more_out_of_nine_or_more_matches")
     nontrivial = nrep > 0
     # (after a 'cif_like' first step the intermediate structure is itself the known finding: not a consistent input for a second step)
     if out is not None and case["chain"] and abs(nrep) > 0 and len(rep["elements"]) >= 1 and pair_class != "cif_like":
@@ -412,6 +459,8 @@ def example_step(ctx, st, S, P, R, pat, rep, step, pf, rf):
 
 def requirements(stats, tier):
     need = []
+    if stats.get("partial_replacements_of_three_or_more_out_of_nine_or_more_matches") < (8 if tier == "quick" else 1000):
+        need.append("partial replacements of three or more out of nine or more matches: %d" % stats.get("partial_replacements_of_three_or_more_out_of_nine_or_more_matches"))
     if stats.get("doubled_structure_terms_that_the_pattern_supersedes") < (5 if tier == "quick" else 500):
         need.append("structure terms doubled over the same atoms that the pattern supersedes: %d" % stats.get("doubled_structure_terms_that_the_pattern_supersedes"))
     if stats.get("steps_compared_with_model") < (300 if tier == "quick" else 40000):
